@@ -333,6 +333,12 @@ func (d *Decoder) readObject(typ reflect.Type, cls ClassDef) (interface{}, error
 }
 
 func (d *Decoder) readField(fldName string, fldValue reflect.Value) error {
+	if d.depth >= _maxDecodeDepth {
+		return errTooDeep
+	}
+	d.depth++
+	defer func() { d.depth-- }()
+
 	sourceValue := fldValue
 	typ := UnpackPtrType(fldValue.Type())
 	fldValue = UnpackPtrValue(fldValue)
